@@ -6,8 +6,11 @@ from collections import defaultdict
 
 
 class Program:
-    def __init__(self, dirs):
+    def __init__(self, dirs, inline=True):
         self.dirs = dirs
+        self.transparent = set()   # keys of helpers spliced into their callers (analysis/inline.py)
+        self.adopted = defaultdict(list)   # caller key -> closures of helpers spliced into it
+        self.host_of = {}          # transparent helper key -> one caller key (for attribution)
         self.ix = {}            # key -> index record
         self.by_name = defaultdict(list)  # display name -> [key]
         self.adts = {}          # key -> adt record
@@ -45,6 +48,56 @@ class Program:
         for r in self.ix.values():
             for c in r["calls"]:
                 self._canon_callee(c["f"])
+        if inline:
+            self._setup_transparent()
+
+    def _setup_transparent(self):
+        """Functions that are not in the reviewed baseline are analysed as part of their callers."""
+        from . import inline as _inl
+        base = _inl.load_baseline()
+        if base is None:
+            return
+        cand = {k for k, r in self.ix.items() if r["kind"] in ("fn", "method") and r["name"] not in base
+                and "::tests::" not in r["name"] and not self.coroutine_of(k)}
+        if not cand:
+            return
+        # only helpers that are actually called directly by somebody (entry points stay functions of their own)
+        called = set()
+        for k, r in self.ix.items():
+            for c in r["calls"]:
+                ck = c["f"].get("rkey") or c["f"].get("key")
+                if ck in cand and ck != k:
+                    called.add(ck)
+        self.transparent = called
+        # merge the index summaries of the helpers into their callers, innermost first (bounded rounds)
+        for _ in range(_inl.MAX_DEPTH):
+            changed = False
+            for k, r in self.ix.items():
+                hs = [c for c in r["calls"] if (c["f"].get("rkey") or c["f"].get("key")) in self.transparent and (c["f"].get("rkey") or c["f"].get("key")) != k]
+                if not hs:
+                    continue
+                for c in hs:
+                    hk = c["f"].get("rkey") or c["f"].get("key")
+                    h = self.ix[hk]
+                    r["calls"] = [x for x in r["calls"] if x is not c] + [x for x in h["calls"] if (x["f"].get("rkey") or x["f"].get("key")) != hk]
+                    for fld in ("aggs", "fnrefs", "closures"):
+                        r[fld] = sorted(set(r.get(fld, [])) | set(h.get(fld, [])))
+                    self.adopted[k] = sorted(set(self.adopted[k]) | {c2 for c2 in self.children.get(hk, [])} | set(self.adopted.get(hk, [])))
+                    self.host_of.setdefault(hk, k)
+                    changed = True
+            if not changed:
+                break
+        self._callers = None
+
+    def host(self, key):
+        """The function a body is analysed as part of: a transparent helper (or a closure of one) belongs to its caller."""
+        seen = 0
+        root = self.ix[key].get("root") or key
+        while root in self.host_of and seen < 8:
+            h = self.host_of[root]
+            root = self.ix[h].get("root") or h
+            seen += 1
+        return root
 
     def _canon_callee(self, f):
         k = f.get("key")
@@ -83,7 +136,7 @@ class Program:
         return r["key"].startswith(crate + "::")
 
     # ------------------------------------------------------------------ functions
-    def fn(self, key):
+    def fn_raw(self, key):
         f = self._fn_cache.get(key)
         if f is None:
             r = self.ix[key]
@@ -93,6 +146,22 @@ class Program:
             self._canon_fn(f)
             self._fn_cache[key] = f
         return f
+
+    def fn(self, key, _stack=(), _depth=0):
+        """The MIR body of `key`, with transparent helpers spliced in."""
+        if not self.transparent:
+            return self.fn_raw(key)
+        if not _stack:
+            f = self._spliced.get(key) if hasattr(self, "_spliced") else None
+            if f is None:
+                if not hasattr(self, "_spliced"):
+                    self._spliced = {}
+                from . import inline as _inl
+                f = _inl.splice(self, self.fn_raw(key))
+                self._spliced[key] = f
+            return f
+        from . import inline as _inl
+        return _inl.splice(self, self.fn_raw(key), _stack, _depth)
 
     def find(self, pattern, kind=None):
         """Keys of functions whose display name matches the regex `pattern` (fullmatch)."""
@@ -119,6 +188,9 @@ class Program:
         """key plus every closure/coroutine body nested in it (transitively by `root`)."""
         root = self.ix[key].get("root") or key
         out = [key]
+        for a in self.adopted.get(key, []):
+            if a not in out:
+                out.append(a)
         # children are registered by root; select those whose parent chain passes through key
         for c in self.children.get(root, []):
             if c == key:
@@ -134,6 +206,10 @@ class Program:
                 seen += 1
             if ok:
                 out.append(c)
+        for k2 in list(out):
+            for a in self.adopted.get(k2, []):
+                if a not in out:
+                    out.append(a)
         return out
 
     def coroutine_of(self, key):
